@@ -305,6 +305,7 @@ struct Client {
 
 struct SavedForm {
   bool present = false;
+  bool torn = false;   // a stored byte was flipped (fault `torn_store_byte`): the catalogue no longer knows the content
   uint8_t bytes[5];
   Desc d;   // what the simulator knows was saved
 };
@@ -722,7 +723,7 @@ void TzDevice::exec(const std::vector<std::string>& t, int opIndex, Verdict& v, 
     if (s < 0 || s >= kMaxClients || k < 0 || k >= kMaxStore || clients[s].d.kind == K_EMPTY) return;
     TimeZoneData d = clients[s].tz.toTimeZoneData();
     SavedForm& f = store[k];
-    f.present = true; f.d = clients[s].d;
+    f.present = true; f.torn = false; f.d = clients[s].d;
     f.bytes[0] = d.type;       // written field by field, little endian, like the example apps' EEPROM code
     if (d.type == TimeZoneData::kTypeManual) {
       f.bytes[1] = (uint8_t)(d.stdOffsetMinutes & 0xff); f.bytes[2] = (uint8_t)((d.stdOffsetMinutes >> 8) & 0xff);
@@ -732,6 +733,12 @@ void TzDevice::exec(const std::vector<std::string>& t, int opIndex, Verdict& v, 
       f.bytes[1] = id & 0xff; f.bytes[2] = (id >> 8) & 0xff; f.bytes[3] = (id >> 16) & 0xff; f.bytes[4] = (id >> 24) & 0xff;
     }
     cov.count("c16.saves");
+  } else if (op == "TEAR") {   // TEAR <store> <pos 0..4> <value>: one stored byte is overwritten (power loss mid-write, bit rot)
+    long k = tokInt(t, 1, -1), pos = tokInt(t, 2, 0);
+    if (k < 0 || k >= kMaxStore || !store[k].present || pos < 0 || pos > 4) return;
+    store[k].bytes[pos] = (uint8_t)tokInt(t, 3, 0);
+    store[k].torn = true;
+    cov.count("fault.torn_store_byte");
   } else if (op == "REBOOT") {
     dropVolatile();
     poison = (uint8_t)kvInt(t, "poison", poison);
@@ -755,6 +762,22 @@ void TzDevice::exec(const std::vector<std::string>& t, int opIndex, Verdict& v, 
     Client c; c.tz = tz;
     cov.count("c16.restores");
     const char* rel = "n/a";
+    if (f.torn) {
+      // Nothing is promised about the meaning of a corrupted record; it must still restore to SOME usable
+      // time zone without crash or UB. The catalogue entry is derived from what came back.
+      rel = "torn";
+      if (tz.isError()) c.d.kind = K_ERROR;
+      else if (tz.getType() == TimeZone::kTypeManual) {
+        c.d.kind = K_MANUAL; c.d.stdMin = tz.getStdOffset().toMinutes(); c.d.dstMin = tz.getDstOffset().toMinutes();
+      } else {
+        const void* zi = m.findById(tz.getZoneId());
+        if (!zi) return;
+        c.d.kind = ext ? K_XMGR : K_BMGR; c.d.zi = zi; c.d.zoneId = tz.getZoneId();
+      }
+      cov.count("probe.restore_of_torn_record");
+      clients[s] = c;
+      return;
+    }
     if (isZone(f.d.kind)) {
       const void* zi = m.findById(f.d.zoneId);
       rel = zi ? "present" : "absent";
@@ -1148,6 +1171,10 @@ struct Gen {
         }
       } else if ((w -= mix.wSave) < mix.wRestore) {
         int k = (int)rng.below(kMaxStore);
+        if (mix.extremes && rng.chance(1, 4)) {
+          // device profile only: corrupt one stored byte before the restore
+          line(fmt("TEAR %d %d %d", k, (int)rng.below(5), (int)(rng.chance(1, 3) ? rng.below(4) : rng.below(256))));
+        }
         bool ext = rng.chance(1, 2);
         if (saved[k] && isBasic(savedKind[k]) && rng.chance(2, 3)) ext = false;   // basic ids are a subset of extended ids
         if (saved[k] && isExt(savedKind[k]) && rng.chance(2, 3)) ext = true;
